@@ -395,3 +395,28 @@ def abs_c02(w, sess, frames, t0, hs_len, res):
 
 
 ABSTRACT["C02"] = abs_c02
+
+
+def abs_c08(w, sess, frames, t0, hs_len, res):
+    """Wire events: every DNS query a real client put on the wire, as a dotted name (strict parser)."""
+    evs = []
+    L = sess.cfg.get("maxlen") or 255
+    dom = [ord(c) for c in sess.domain]
+    seen = set()
+    for e in w.trace:
+        if e["ev"] != "Send" or not e["inst"].startswith("C"):
+            continue
+        d = e["data"]
+        if d[:3] == proto.RAW_HDR:
+            continue
+        m = D.parse(d)
+        name = b".".join(m.qd[0][0]) if (m.qd and not m.errors) else b""
+        if name in seen:
+            continue
+        seen.add(name)
+        evs.append({"e": "Wire", "L": L, "dom": dom, "name": list(name)})
+    res["stats"]["wire_names"] = len(evs)
+    return evs
+
+
+ABSTRACT["C08"] = abs_c08
